@@ -205,13 +205,22 @@ func (w *World) Check(ctx string) {
 		}
 	}
 	live := 0
+	places := make(map[string]int, len(w.Reg))
+	for p := range w.Queue {
+		places[p]++
+	}
+	for _, ps := range w.Tables {
+		for _, p := range ps {
+			places[p]++
+		}
+	}
 	for _, p := range sortedKeys(w.Reg) {
 		if w.Elim[p] {
 			continue
 		}
 		live++
-		if pl := w.where(p); len(pl) != 1 {
-			w.fail("C09", "not-in-exactly-one-place/"+ctx, "after %s player %s is in %v", ctx, p, pl)
+		if places[p] != 1 {
+			w.fail("C09", "not-in-exactly-one-place/"+ctx, "after %s player %s is in %v", ctx, p, w.where(p))
 		}
 	}
 	if got := w.R.GetPlayerCount(); got != live {
